@@ -308,7 +308,7 @@ func (its *PushPullHandler) processSubscribeOrCreate(code pushPullCase) errors.O
 			return its.createDatatype()
 		case caseUsedDUID, caseMatchKeyNotType: // the DUID or the key belongs to another datatype
 			return errors.PushPullDuplicateKey.New(its.ctx.L(), its.Key)
-		case caseAllMatchedNotSubscribed:
+		case caseAllMatchedNotSubscribed, caseAllMatchedSubscribed:
 			return its.subscribeDatatype()
 		}
 	} else if its.gotOption.HasSubscribeBit() {
@@ -317,7 +317,8 @@ func (its *PushPullHandler) processSubscribeOrCreate(code pushPullCase) errors.O
 			return errors.PushPullNoDatatypeToSubscribe.New(its.ctx.L(), its.Key)
 		case caseUsedDUID, caseMatchKeyNotType: // no datatype of this type under the key
 			return errors.PushPullNoDatatypeToSubscribe.New(its.ctx.L(), its.Key)
-		case caseAllMatchedSubscribed:
+		case caseAllMatchedSubscribed: // a repeated subscribe (e.g. the first response was lost): answer it again
+			return its.subscribeDatatype()
 		case caseAllMatchedNotSubscribed:
 			return its.subscribeDatatype()
 		case caseAllMatchedNotVisible:
